@@ -322,13 +322,38 @@ def _sign_convention(res, index):
             f = index.cls(cname).methods.get(mname)
             if f is None:
                 continue
+            wvals = []
             for node in ast.walk(f.node):
                 if isinstance(node, ast.Assign) and isinstance(node.targets[0], ast.Subscript):
                     t = ast.unparse(node.targets[0]).replace(" ", "")
                     if t.endswith(",3]"):
+                        wvals.append((node, node.value))
+            if not wvals:
+                # the offsets kept in an array of their own and joined to the normals when the table is stored:
+                # self._equations = np.column_stack((normals, offsets))  with  offsets[i] = ... / offsets = ...
+                for node in ast.walk(f.node):
+                    if isinstance(node, ast.Assign) and isinstance(node.targets[0], ast.Attribute) and node.targets[0].attr in ("_equations", "_simplex_equations") \
+                            and isinstance(node.value, ast.Call) and ast.unparse(node.value.func).split(".")[-1] in ("column_stack", "hstack") and node.value.args \
+                            and isinstance(node.value.args[0], (ast.Tuple, ast.List)) and len(node.value.args[0].elts) >= 2:
+                        last = node.value.args[0].elts[-1]
+                        while isinstance(last, ast.Subscript) and isinstance(last.value, ast.Name):       # offsets[:, None]
+                            last = last.value
+                        if isinstance(last, ast.Name):
+                            for d_ in ast.walk(f.node):
+                                if isinstance(d_, ast.Assign) and len(d_.targets) == 1:
+                                    t_ = d_.targets[0]
+                                    if (isinstance(t_, ast.Subscript) and isinstance(t_.value, ast.Name) and t_.value.id == last.id) or \
+                                            (isinstance(t_, ast.Name) and t_.id == last.id and not (isinstance(d_.value, ast.Call) and ast.unparse(d_.value.func).split(".")[-1]
+                                                                                                    in ("empty", "zeros", "empty_like", "zeros_like"))):
+                                        wvals.append((d_, d_.value))
+                        else:
+                            wvals.append((node, last))
+            for node, v_ in wvals:
+                if True:
+                    if True:
                         sites += 1
                         k = f"{cname}.{mname}:writer"
-                        v = node.value
+                        v = v_
                         neg = isinstance(v, ast.UnaryOp) and isinstance(v.op, ast.USub)
                         is_dot = any(isinstance(c, ast.Call) and (ast.unparse(c.func) in ("np.einsum", "np.dot") or ast.unparse(c.func).endswith(".dot")) for c in ast.walk(v))
                         if neg and is_dot:
